@@ -141,30 +141,29 @@ func runC03(h kit.History) kit.Result {
 				was, is := rolesOf(before, id), rolesOf(m, id)
 				_, existsNow := m.Ents["things"][id]
 				evs := chain[id]
-				if len(evs) == 0 {
-					recreated := false
-					for _, op := range tx.Ops {
-						if op.ID == id && op.Kind == "delete" {
-							recreated = true
-						}
+				// a delete is not reported (and a re-creation with no roles neither): the chain of an entity that was
+				// deleted somewhere in this transaction is only checked for reports of non-changes
+				deleted := false
+				for _, op := range tx.Ops {
+					if op.ID == id && (op.Kind == "delete" || op.Kind == "deletewhere") || op.Kind == "deletewhere" {
+						deleted = true
 					}
-					if existsNow && !recreated && fmt.Sprint(was) != fmt.Sprint(is) {
+				}
+				if len(evs) == 0 {
+					if existsNow && !deleted && fmt.Sprint(was) != fmt.Sprint(is) {
 						return fmt.Errorf("the role set of %s went from %q to %q and the set index's change listener was not told", id, was, is)
 					}
 					continue
 				}
-				for k := 0; k+1 < len(evs); k++ {
-					deleted := false
-					for _, op := range tx.Ops {
-						if op.ID == id && op.Kind == "delete" {
-							deleted = true
-						}
-					}
-					if !deleted && fmt.Sprint(evs[k].new) != fmt.Sprint(evs[k+1].old) {
+				for k := 0; k+1 < len(evs) && !deleted; k++ {
+					if fmt.Sprint(evs[k].new) != fmt.Sprint(evs[k+1].old) {
 						return fmt.Errorf("set index change listener, entity %s: one report ends with %q, the next starts from %q", id, evs[k].new, evs[k+1].old)
 					}
 				}
-				if existsNow && fmt.Sprint(evs[len(evs)-1].new) != fmt.Sprint(is) {
+				if existsNow && !deleted && fmt.Sprint(evs[0].old) != fmt.Sprint(was) {
+					return fmt.Errorf("set index change listener, entity %s: the first report starts from %q, the roles were %q", id, evs[0].old, was)
+				}
+				if existsNow && !deleted && fmt.Sprint(evs[len(evs)-1].new) != fmt.Sprint(is) {
 					return fmt.Errorf("set index change listener, entity %s: the last report says the roles are now %q, they are %q", id, evs[len(evs)-1].new, is)
 				}
 				for _, ev := range evs {
